@@ -25,7 +25,8 @@ type Base struct {
 
 // ---------------- family I ----------------
 type IP struct {
-	K uint `gorm:"primaryKey;autoIncrement:false"`
+	Lbl *string // nullable column declared BEFORE the key: the first column of a joined row can be NULL
+	K   uint    `gorm:"primaryKey;autoIncrement:false"`
 	Base
 	TK     *uint
 	BK     *uint
@@ -42,7 +43,8 @@ type IP struct {
 	Subs   []IU `gorm:"foreignKey:PCode;references:Code"`
 }
 type IO struct {
-	ID int64 `gorm:"primaryKey"`
+	Lbl *string // nullable column declared BEFORE the key: the first column of a joined row can be NULL
+	ID  int64   `gorm:"primaryKey"`
 	Base
 	PK *uint
 }
@@ -53,7 +55,8 @@ type IM struct {
 	Owner *IP `gorm:"foreignKey:PK;references:K"`
 }
 type IT struct {
-	K uint `gorm:"primaryKey;autoIncrement:false"`
+	Lbl *string // nullable column declared BEFORE the key: the first column of a joined row can be NULL
+	K   uint    `gorm:"primaryKey;autoIncrement:false"`
 	Base
 }
 type IG struct {
@@ -69,7 +72,8 @@ type IN struct {
 
 // ---------------- family S ----------------
 type SP struct {
-	K string `gorm:"primaryKey"`
+	Lbl *string // nullable column declared BEFORE the key: the first column of a joined row can be NULL
+	K   string  `gorm:"primaryKey"`
 	Base
 	TK     *string
 	BK     *string
@@ -86,7 +90,8 @@ type SP struct {
 	Subs   []SU `gorm:"foreignKey:PCode;references:Code"`
 }
 type SO struct {
-	ID int64 `gorm:"primaryKey"`
+	Lbl *string // nullable column declared BEFORE the key: the first column of a joined row can be NULL
+	ID  int64   `gorm:"primaryKey"`
 	Base
 	PK *string
 }
@@ -97,7 +102,8 @@ type SM struct {
 	Owner *SP `gorm:"foreignKey:PK;references:K"`
 }
 type ST struct {
-	K string `gorm:"primaryKey"`
+	Lbl *string // nullable column declared BEFORE the key: the first column of a joined row can be NULL
+	K   string  `gorm:"primaryKey"`
 	Base
 }
 type SG struct {
@@ -113,8 +119,9 @@ type SN struct {
 
 // ---------------- family C ----------------
 type CP struct {
-	A string `gorm:"primaryKey"`
-	B string `gorm:"primaryKey"`
+	Lbl *string // nullable column declared BEFORE the key: the first column of a joined row can be NULL
+	A   string  `gorm:"primaryKey"`
+	B   string  `gorm:"primaryKey"`
 	Base
 	TA     *string
 	TB     *string
@@ -128,7 +135,8 @@ type CP struct {
 	Team   []CP `gorm:"foreignKey:BA,BB;references:A,B"`
 }
 type CO struct {
-	ID int64 `gorm:"primaryKey"`
+	Lbl *string // nullable column declared BEFORE the key: the first column of a joined row can be NULL
+	ID  int64   `gorm:"primaryKey"`
 	Base
 	PA *string
 	PB *string
@@ -141,8 +149,9 @@ type CM struct {
 	Owner *CP `gorm:"foreignKey:PA,PB;references:A,B"`
 }
 type CT struct {
-	A string `gorm:"primaryKey"`
-	B string `gorm:"primaryKey"`
+	Lbl *string // nullable column declared BEFORE the key: the first column of a joined row can be NULL
+	A   string  `gorm:"primaryKey"`
+	B   string  `gorm:"primaryKey"`
 	Base
 }
 type CG struct {
@@ -241,7 +250,8 @@ type IL struct {
 	OwnerType string
 }
 type IC struct {
-	ID int64 `gorm:"primaryKey"`
+	Lbl *string // nullable column declared BEFORE the key: the first column of a joined row can be NULL
+	ID  int64   `gorm:"primaryKey"`
 	Base
 	OwnerID   *string
 	OwnerType string
@@ -258,7 +268,8 @@ type SL struct {
 	OwnerType string
 }
 type SC struct {
-	ID int64 `gorm:"primaryKey"`
+	Lbl *string // nullable column declared BEFORE the key: the first column of a joined row can be NULL
+	ID  int64   `gorm:"primaryKey"`
 	Base
 	OwnerID   *string
 	OwnerType string
@@ -353,7 +364,8 @@ type DInfo struct {
 	Buddy   *DT
 }
 type DP struct {
-	ID uint
+	Lbl *string // nullable column declared BEFORE the key: the first column of a joined row can be NULL
+	ID  uint
 	Base
 	TargetID *uint
 	Target   *DT
@@ -387,7 +399,8 @@ type DM struct {
 	Owner *DP `gorm:"foreignKey:DPID"`
 }
 type DT struct {
-	ID uint
+	Lbl *string // nullable column declared BEFORE the key: the first column of a joined row can be NULL
+	ID  uint
 	Base
 }
 type DG struct {
